@@ -47,6 +47,24 @@ def r1_self_references_found(ctx):
             e in elts,
             f"references to {what} are not searched for: a method that names {'its own function' if e != 'recurse' else 'recurse'} keeps calling the function it was first registered in when it runs inside a variant",
         )
+    # every name found is handed to the re-compiler (not just the first)
+    rc = A.recompiler(repo)
+    hand = [x for x in ast.walk(ad.node) if isinstance(x, ast.Call) and call_name(x) == rc.name]
+    ctx.require(hand, f"{ad.key} no longer calls {rc.name}")
+    found_var = None
+    for s in ast.walk(ad.node):
+        if isinstance(s, ast.Assign) and any(x is c for x in ast.walk(s.value)) and isinstance(s.targets[0], ast.Name):
+            found_var = s.targets[0].id
+    for h in hand:
+        arg = h.args[2] if len(h.args) > 2 else None
+        whole = isinstance(arg, ast.Name) and arg.id == found_var
+        ctx.ob(
+            f"{ad.key}:all-names-rewritten",
+            ad.loc(h),
+            f"all the names found for recurse / the function itself (`{found_var}`) are handed to the re-compiler",
+            whole,
+            f"`{short(arg, 40) if arg is not None else '?'}` hands over only part of the names found: a method that uses both recurse(...) and its own function's name keeps one of them unrewritten (UsageError, or re-entering the parent instead of the variant)",
+        )
     for cc in calls:
         ok = len(cc.args) >= 4 and src(cc.args[3]) == f"{fnp}.__closure__" and src(cc.args[2]) == f"{fnp}.__globals__" and src(cc.args[0]) == f"{fnp}.__code__"
         ctx.ob(f"{ad.key}:search-scope:{short(cc.args[1], 30)}", ad.loc(cc), "the search is given the method's code, globals and closure cells", ok, "the search is not given the method's closure cells (or globals): a recurse / self reference held in a closure variable is not found and not rewritten")
